@@ -69,6 +69,10 @@ def gen_cases(tier, rng):
         pool = ["cutoff", "subtract", "recover", "assign", "add"] if kind == "Hamiltonian" else ["element", "element", "add", "assign"]
         cases.append({"cls": "revisit", "seed": int(rng.integers(1 << 30)), "dim": int(rng.integers(3, 6)), "kind": kind,
                       "first": str(rng.choice(["unread", "protected", "read"])), "write": [str(w) for w in rng.choice(pool, size=int(rng.integers(1, 4)))], "cost": 0.5})
+    for i in range(48 if tier == "quick" else 320):
+        depth = 2 + i % 3
+        cases.append({"cls": "protected-from-afar", "seed": int(rng.integers(1 << 30)), "dim": int(rng.integers(3, 6)), "depth": depth,
+                      "stored_at": int(rng.integers(0, depth + 1)), "complex": bool(i % 5 == 4), "cost": 0.5})
     from qrv import repotests
     cases.extend(repotests.gen_cases(tier))
     # library computations carried out inside a context on objects made outside: results (read after the context is left) equal those of the
@@ -378,6 +382,63 @@ def run_case(case, ctx):
         ctx.require("constructor-failure-raised", seen is not None, {"which": case["which"]})
         ctx.key(("constructor-failure", case["which"], case["depth"], n))
         ctx.nontrivial(seen is not None)
+        return
+    if case["cls"] == "protected-from-afar":
+        # the library's idiom  ham.protect_basis(); with eigenbasis_of(ham): ...  used from within several nested contexts, with the
+        # protected operator stored in the representation of ANY of the enclosing levels (it was last looked at there)
+        depth, stored_at = case["depth"], case["stored_at"]
+        outer = [rsym(rng, n, "complex" if (case["complex"] and k == 0) else "generic") for k in range(depth)]
+        Xs = [qm.SelfAdjointOperator(data=d.copy()) for d in outer]
+        Pd = rsym(rng, n, str(rng.choice(["generic", "generic", "degenerate"])))
+        P = qr.Hamiltonian(data=Pd.copy())
+        Bd = rng.normal(size=(n, n))
+        B = qm.Operator(data=Bd.copy())
+        tol = lambda a: 1e-9 * max(float(numpy.max(numpy.abs(a))), 1.0) * n
+        made = {}
+
+        def descend(k, Stot):
+            if k == stored_at:
+                pd = numpy.array(P.data)
+                ctx.check("presented-in-context-basis", float(numpy.max(numpy.abs(pd - dag(Stot) @ Pd @ Stot))), tol(Pd), {"what": "operator read at the level it will be stored in", "level": k})
+            if k < depth:
+                with qr.eigenbasis_of(Xs[k]):
+                    S = numpy.array(m.basis_transformations[-1])
+                    descend(k + 1, Stot @ S)
+                return
+            P.protect_basis()
+            try:
+                with qr.eigenbasis_of(P):
+                    S = numpy.array(m.basis_transformations[-1])
+                    St = Stot @ S
+                    ctx.check("presented-in-context-basis", float(numpy.max(numpy.abs(dag(St) @ St - numpy.eye(n)))), 1e-10 * n, {"what": "transformation unitary", "level": depth + 1})
+                    dg = dag(St) @ Pd @ St
+                    ev_ = numpy.linalg.eigvalsh(Pd)
+                    ctx.check("presented-in-context-basis", float(numpy.max(numpy.abs(dg - numpy.diag(ev_)))), tol(Pd),
+                              {"what": "the context of a protected operator is its eigenbasis (ascending)", "depth": depth, "stored_at": stored_at, "complex": case["complex"]})
+                    bd = numpy.array(B.data)
+                    ctx.check("presented-in-context-basis", float(numpy.max(numpy.abs(bd - dag(St) @ Bd @ St))), tol(Bd), {"what": "other operator in the context of a protected operator",
+                                                                                                                              "depth": depth, "stored_at": stored_at})
+                    # an object built inside from the eigenvalues is the operator itself once the contexts are left
+                    made["op"] = qm.Operator(data=numpy.diag(ev_).astype(complex if case["complex"] else float))
+            finally:
+                P.unprotect_basis()
+
+        with ctx.lib("protected operator entered from within nested contexts", mechanism=None):
+            with contextlib.redirect_stdout(out):
+                descend(0, numpy.eye(n))
+                back = numpy.array(made["op"].data)
+                pd = numpy.array(P.data)
+                bd = numpy.array(B.data)
+        ctx.check("restored-after-exit", float(numpy.max(numpy.abs(back - Pd))), tol(Pd), {"what": "operator built inside from the eigenvalues of the protected operator", "depth": depth,
+                                                                                           "stored_at": stored_at})
+        ctx.check("restored-after-exit", float(numpy.max(numpy.abs(pd - Pd))), tol(Pd), {"what": "protected operator at the end", "depth": depth, "stored_at": stored_at})
+        ctx.check("restored-after-exit", float(numpy.max(numpy.abs(bd - Bd))), tol(Bd), {"what": "other operator at the end"})
+        for k in range(depth):
+            ctx.check("restored-after-exit", float(numpy.max(numpy.abs(numpy.array(Xs[k].data) - outer[k]))), tol(outer[k]), {"what": "outer context operator at the end", "k": k})
+        ctx.require("bookkeeping-restored", list(m.basis_stack) == [0] and len(m.basis_transformations) == 1, {"after": "protected-from-afar program"})
+        ctx.event("protected_from_afar_programs")
+        ctx.key(("protected-from-afar", depth, stored_at, case["complex"], n, case["seed"]))
+        ctx.nontrivial(depth - stored_at >= 2)
         return
     if case["cls"] == "revisit":
         # a context operator is written between two visits of its own context; what the second visit presents is decided
